@@ -19,7 +19,8 @@ Inductive rop :=
 | OSymbolic (c : cid)            (* K(...) inside a symbolic block: builds an expression *)
 | OInfer (c : cid) (n : nat)     (* a rule  infer(entity(K(f = e), body))  whose body has n solutions *)
 | OClear                         (* the registry is cleared *)
-| OQuery (T : cid).              (* list(an(entity(let(T))).evaluate()) *)
+| OQuery (T : cid)               (* list(an(entity(let(T))).evaluate()) *)
+| OQueryTake (T : cid) (k : nat). (* it = an(entity(let(T))).evaluate(); k results; it.close()  - or the(...) raising on the second *)
 
 (* HashedIterable.add on the class's flat store: a new id is appended, a known one is left where it is;
    a class seen for the first time gets a new entry at the end (defaultdict) *)
@@ -49,6 +50,7 @@ Definition rstep (ct : ctable) (s : rstate) (o : rop) : rstate * list nat :=
   | OInfer c n => (concrete_n n s c, [])
   | OClear => ({| reg := []; next_oid := next_oid s; inits := inits s |}, [])
   | OQuery T => (s, reg_query ct (reg s) T)
+  | OQueryTake T k => (s, firstn k (reg_query ct (reg s) T))
   end.
 
 Definition rinit : rstate := {| reg := []; next_oid := 0; inits := 0 |}.
@@ -74,6 +76,7 @@ Definition refstep (ct : ctable) (s : refstate) (o : rop) : refstate * list nat 
   | OInfer c n => (log_n n s c, [])
   | OClear => ({| lg := []; ref_next := ref_next s; ref_inits := ref_inits s |}, [])
   | OQuery T => (s, ref_query ct (lg s) T)
+  | OQueryTake T k => (s, ref_query ct (lg s) T)      (* the reference gives the whole answer: k distinct members of it are delivered *)
   end.
 
 Definition refinit : refstate := {| lg := []; ref_next := 0; ref_inits := 0 |}.
